@@ -43,6 +43,38 @@ def run(chk, repo: Repo):
     _r4(chk, repo)
     _r5(chk, repo)
     _r6(chk, repo)
+    chk.rule("C13-R7", "a geometry whose par2fun post-processes the wrapped geometry's function values (user map) reports the shape of ITS OWN function "
+                       "values: fun_shape / funvec_shape resolve to the probing implementation, not to a delegation to the wrapped geometry", floor=1)
+    _r7(chk, repo)
+
+
+def _r7(chk, repo):
+    from .common import closed_outcomes
+    from ..pattern import norm as pn
+    base = repo.cls(f"{GEO}:Geometry")
+    n = 0
+    for ci in [base] + repo.subclasses(base):
+        r = ci.lookup("par2fun")
+        if r is None or r[0] is not ci:
+            continue
+        outs = closed_outcomes(repo, ci, r[1])
+        rets = [t for k, t in outs if k == "return"]
+        p = func_params(r[1])[1] if len(func_params(r[1])) > 1 else None
+        inner = pn(f"self.geometry.par2fun({p})") if p else None
+        post = [t for t in rets if inner and inner in t and t != inner]
+        if not post:
+            continue            # not a wrapper that transforms the wrapped function values
+        n += 1
+        for prop in ("fun_shape", "funvec_shape"):
+            pr = ci.lookup_prop(prop)
+            probing = pr is not None and pr.getter is not None and any(isinstance(c, ast.Call) and (call_name(c) or "") in ("self.par2fun", "self.fun2vec") for c in ast.walk(pr.getter))
+            chk.add("C13-R7", f"{ci.qual}.@{prop}", probing, site(repo, pr.getter) if pr is not None and pr.getter is not None else "",
+                    "shape obtained from the geometry's own par2fun",
+                    f"`{ci.name}.par2fun` returns `{post[0][:60]}` (the wrapped function values passed through a map that may change their shape), but "
+                    f"`{prop}` does not probe that map: it reports the wrapped geometry's shape, so fun_dim, Samples.funvals and CUQIarray.funvals disagree "
+                    f"with what par2fun returns", pr.getter if pr is not None else None)
+    if n < 1:
+        raise AnchorError("no wrapping geometry with a post-processing par2fun found (MappedGeometry expected)")
 
 
 class _ShadowRule:
